@@ -5,7 +5,7 @@ import "math/big"
 
 func c16More(c *Ctx, r *Report, p *Prog, f *Folder, P, N interface{}) {
 	// (b) canonical decode: inventories of both SetBytes (bound folded to p-1 resp. n-1) and of the point decoder
-	c03Decoders(r, p, f)
+	protoDecoders(r, p)
 	// (g) range and algebra of the generated Montgomery primitives
 	c16NoWrap(r, p)
 	c16Algebra(r, p, P.(*big.Int), N.(*big.Int))
@@ -13,6 +13,5 @@ func c16More(c *Ctx, r *Report, p *Prog, f *Folder, P, N interface{}) {
 
 func c15More(c *Ctx, r *Report, p *Prog, f *Folder) {
 	// (b) strict decoding: inventory of (*SM2Point).SetBytes and of the coordinate decoder
-	c03Decoders(r, p, f)
-	c12CurveEquation(r, p, f)
+	protoDecoders(r, p)
 }
